@@ -447,3 +447,49 @@ unit({
         {'file': 'src/Stream/FileWriter.cpp', 'qual': 'FileWriter::TranslateFlags', 'cls': 'FileWriter', 'static': True, 'cname': 'FileWriter_TranslateFlags', 'ret_cxx': 'std::ios_base::openmode', 'members': {}},
     ],
 })
+
+# --------------------------------------------------------------------------- U-VOLW (VolFile: archive creation)
+VF = 'src/Archive/VolFile.cpp'; VH = 'src/Archive/VolFile.h'
+VOL_TM = {'Tag': 'Tag', 'CompressionType': 'CompressionType', 'VolPadding': 'VolPadding', 'IndexEntry': 'VolIndexEntry', 'SectionHeader': 'VolSectionHeader',
+          'VolFile::SectionHeader': 'VolSectionHeader', 'CreateVolumeInfo': 'CreateVolumeInfo', 'std::string': 'str', 'std::vector<std::string>': 'vec_str',
+          'std::vector<IndexEntry>': 'vec_VolIndexEntry', 'std::vector<std::unique_ptr<Stream::BidirectionalReader>>': 'vec_Rf',
+          'Stream::Writer': 'Wr', 'Stream::FileWriter': 'FileWriterT', 'std::size_t': 'size_t'}
+VOL_VIEWS = [(r'\(\*volInfo\)\.indexEntries', 'vec'), (r'\(\*volInfo\)\.names', 'vec'), (r'\(\*volInfo\)\.filesToPack', 'vec'), (r'\(\*volInfo\)\.fileStreamReaders', 'vecptr'),
+             (r'\(\*volInfo\)\.names\.data\[[^\]]*\]', 'str'), (r'\(\*path\)', 'str')]
+def _vf(name, **kw):
+    d = {'file': VF, 'qual': 'VolFile::' + name, 'cls': 'VolFile', 'static': True, 'cname': 'VolFile_' + name, 'members': {}}
+    d.update(kw); return d
+unit({
+    'name': 'volw',
+    'includes': ['kr.h', 'wr.h', 'volw.h'],
+    'typemap': VOL_TM,
+    'enums': [('src/Archive/CompressionType.h', 'CompressionType'), (VH, 'VolPadding')],
+    'structs': [STR_VIEW, TAG_T, VIEW('vec_str', 'str'), (VH, 'IndexEntry', {'cname': 'VolIndexEntry'}), (VH, 'SectionHeader', {'cname': 'VolSectionHeader'}),
+                VIEW('vec_VolIndexEntry', 'VolIndexEntry'), 'typedef struct Rf { uint64_t len; uint64_t pos; } Rf;   /* framing view of an input stream */', VIEW('vec_Rf', 'Rf'),
+                (VH, 'CreateVolumeInfo')],
+    'globals': [{'file': VF, 'qual': 'Tag' + t_, 'ctype': 'Tag', 'cname': 'Tag' + t_} for t_ in ('VOL_', 'VOLH', 'VOLS', 'VOLI', 'VBLK')],
+    'scoped': {'CompressionType': 'CompressionType', 'VolPadding': 'VolPadding', 'XFile': ''},
+    'views': VOL_VIEWS,
+    'vecptr_types': ('vec_Rf',),
+    'ctor_calls': {'FileWriterT': {'fn': 'FileWriter_ctor', 'throws': True}},
+    'calls': {
+        'fileCount': N('CreateVolumeInfo_fileCount'),
+        'OpenAllInputFiles': T('VolFile_OpenAllInputFiles', recv='none', args=['ref', 'ref']),
+        'Length': N('Rf_Length'),
+        'push_back': T('vec_VolIndexEntry_push_back'),
+        'SectionHeader': {2: N('VolSectionHeader_make2', recv='none'), 3: N('VolSectionHeader_make3', recv='none')},
+        'Write': {1: [(r'(Vol)?SectionHeader.*|\(\*volInfo\)\.stringTableLength', T('Wr_Write', args=['objtmp'])), (r'\*\s*\(\*volInfo\)\.fileStreamReaders.*', T('Wr_WriteReaderF', args=['ref']))],
+                  2: T('Wr_Write')},
+        'PathsAreEqual': N('XFile_PathsAreEqual', recv='none', args=['ref', 'ref']),
+        'WriteHeader': T('VolFile_WriteHeader', recv='none', args=['ref', 'ref']),
+        'WriteFiles': T('VolFile_WriteFiles', recv='none', args=['ref', 'ref']),
+    },
+    'functions': [
+        {'file': VF, 'qual': 'VolFile::SectionHeader::SectionHeader', 'nparams': 3, 'cls': 'VolSectionHeader', 'ctor': True, 'cname': 'VolSectionHeader_ctor3'},
+        {'file': VH, 'qual': 'fileCount', 'inclass': 'CreateVolumeInfo', 'cls': 'CreateVolumeInfo', 'cname': 'CreateVolumeInfo_fileCount'},
+        _vf('PrepareHeader', rangefor={}),
+        _vf('WriteHeader'),
+        _vf('WriteFiles'),
+        _vf('WriteVolume', rangefor={'path': 'str'}),
+    ],
+})
